@@ -3,6 +3,7 @@ import BpModel.Proofs.ExprFuel
 import BpModel.Proofs.FrontFuel
 import BpModel.Proofs.BridgeTables
 import BpModel.Proofs.Lex
+import BpModel.Proofs.Parse
 /-!
 # C09 — compilation is total: any input yields success or a parser error
 
@@ -22,8 +23,8 @@ ever the answer.
 
 * text level: the lexer model (`Lex.lex`: PLY's rule order, `\b` boundaries, lazy errors) terminates on
   every text and numbers lines correctly; the grammar model (`Parse.parseText`, a predictive parser
-  written from `grammars.py`) is total by construction up to its fuel, whose adequacy is NOT proved
-  (the driver would answer `hang`, which the text-level correspondence of C08 would report).
+  written from `grammars.py`) never hits a fuel bound either (`C09_grammar_total`): every parsing function
+  hands back a token list no longer than the one it got.
 
 Not modelled (tied by the correspondence streams only, hence `partial`): PLY's LALR automaton itself
 (the text-level models are tied to it by executing both on the same texts), and the renderers as a
@@ -78,6 +79,11 @@ theorem C09_lexer_total (text : List Char) : (Lex.lex text).2 ≠ some .outOfFue
 /-- every token carries the line it is on: 1 + the number of NEWLINE tokens before it -/
 theorem C09_token_lines (text : List Char) : Lex.LinesOk 1 (Lex.lex text).1 :=
   Lex.lexAll_lines text.length false 1 text
+
+/-- **the grammar model terminates**: for every text, no parsing function of `Parse.lean` ever hits its
+fuel bound (`hung` is the ghost flag a fuel stop would set; such a stop is the only way the rule
+`hang` can appear in the item list) -/
+theorem C09_grammar_total (raw : List Char) : (Parse.parseBody raw).hung = false := Parse.parseBody_total raw
 
 /-- the translator tie: the model's escape table is `Lexer.escaping_chars` as lexer.py reads now -/
 theorem C09_escapes_tied (c : Char) :
